@@ -221,6 +221,53 @@ pub fn property(_tier: Tier) -> Property {
                 check: Box::new(check_typed),
             }),
             crate::props::c13_sim::part(),
+            Box::new(RandomPart {
+                name: "list_replies_interrupted",
+                rule: "protocol layer: the reply to a command list of 2-9 commands, most of whose replies are empty (a frame that is nothing but list_OK) or one short field, optionally failing part-way; received with a read boundary after every line / one byte at a time / in 3-byte pieces by a blocking receive that is interrupted by a transient WouldBlock before every read and called again, or by an async receive whose future is dropped whenever it is pending; frame i must be the reply to command i (C03's round-trip judge). non-trivial = at least two leading empty frames",
+                cases: (20_000, 2_000_000),
+                strategy: Box::new(|_t| {
+                    use crate::{seg::Seg, streamlab::Flavour, wire::{AFrame, AResp, Item}};
+                    let frame = prop_oneof![
+                        3 => Just(AFrame { items: vec![] }),
+                        1 => "[a-z]{1,4}".prop_map(|v| AFrame { items: vec![Item::Field("volume".into(), v)] }),
+                        1 => ("[a-z]{1,4}", "[a-z]{0,3}").prop_map(|(a, b)| AFrame { items: vec![Item::Field("a".into(), a), Item::Field("b".into(), b)] }),
+                    ];
+                    (
+                        prop::collection::vec(frame.clone(), 2..=9usize),
+                        prop::option::weighted(0.2, (frame, crate::wire::ack())),
+                        0..3u8,
+                        any::<bool>(),
+                        prop::collection::vec(prop_oneof![1 => Just(AResp::Single(AFrame { items: vec![] }))], 0..2usize),
+                    )
+                        .prop_map(|(frames, fail, seg, blocking, after)| {
+                            let first = match fail {
+                                None => AResp::List(frames),
+                                Some((partial, ack)) => AResp::Failed { completed: frames, partial, ack },
+                            };
+                            let mut resps = vec![first];
+                            resps.extend(after);
+                            let bytes = crate::wire::encode(&resps).bytes;
+                            let seg = match seg {
+                                0 => Seg::Cuts(bytes.iter().enumerate().filter(|(_, b)| **b == b'\n').map(|(i, _)| i + 1).collect()),
+                                1 => Seg::OneByte,
+                                _ => Seg::Chunk(3),
+                            };
+                            crate::props::c03::Case { resps, seg, flavour: if blocking { Flavour::BlockingInterrupted } else { Flavour::AsyncCancelled }, via: 0 }
+                        })
+                        .boxed()
+                }),
+                check: Box::new(|c: &crate::props::c03::Case| {
+                    let mut r = crate::props::c03::check(c);
+                    let leading_empty = match c.resps.first() {
+                        Some(crate::wire::AResp::List(f)) | Some(crate::wire::AResp::Failed { completed: f, .. }) => f.iter().take_while(|x| x.items.is_empty()).count(),
+                        _ => 0,
+                    };
+                    r.nontrivial = leading_empty >= 2;
+                    r.classes.clear();
+                    r.class(if leading_empty >= 1 { "leading_empty_frames" } else { "first_frame_not_empty" });
+                    r
+                }),
+            }),
         ],
         assumptions: vec!["typed pairing is judged against the simulated MPD of vlib::sim"],
         selftest: None,
